@@ -43,6 +43,11 @@ CONSTANTS Svcs,        \* service names
           DirectCalls, \* TRUE: every dependency message carries one change and its call starts at once
                        \* (CallStart); FALSE: dependency messages with several changes (DepMsg, ApplyNext)
           MaxMsgLen,   \* services named by one dependency message (DirectCalls = FALSE)
+          MaxPerRequest, \* services one request may name; the code has no bound (a value >= |Svcs|).  A finite bound
+                       \* stands for a size limit on a message (grpc.MaxCallSendMsgSize) or a cap on names per
+                       \* request: such a request is rejected on the client side and the stream is finished
+          RecursiveRLock, \* FALSE (the code): resubscribe takes the read lock once around flush + snapshot;
+                       \* TRUE: the snapshot takes the read lock again (a helper that locks for itself)
           AsyncApply   \* FALSE (the code, discovery.go:46-60): the dependency receive loop applies a message
                        \* (Subscribe for every added, Unsubscribe for every removed service) before it takes the
                        \* next one; TRUE: every message is applied by a goroutine of its own
@@ -73,7 +78,7 @@ vars == <<subscribed, subCh, unsubCh, lock, caller, cop, aq, ops, deps, run, rcv
 \* (two in flight are enough for the counterexample)
 Ap == IF AsyncApply THEN {1, 2} ELSE {1}
 
-RunPCs == {"newStream", "backoff", "resubLock", "resubSend", "sendSelect", "sendBatch",
+RunPCs == {"newStream", "backoff", "resubLock", "resubSnap", "resubSend", "sendSelect", "sendBatch",
            "sendResolve", "sendSend", "waitRecv"}
 
 TypeOK ==
@@ -81,7 +86,7 @@ TypeOK ==
   /\ batchS \subseteq Svcs /\ batchU \subseteq Svcs /\ amb \subseteq Svcs
   /\ subCh \in Seq(Svcs) /\ unsubCh \in Seq(Svcs) /\ Len(subCh) <= Cap /\ Len(unsubCh) <= Cap
   /\ lock \in {"free", "W"}
-  /\ caller \in [Ap -> {"idle", "wantLock", "enqueue", "unlock"}]
+  /\ caller \in [Ap -> {"idle", "wantLock", "waitLock", "enqueue", "unlock"}]
   /\ \A i \in Ap : Len(aq[i]) <= MaxMsgLen
   /\ run \in RunPCs /\ rcv \in {"off", "recv", "done"}
   /\ up \in BOOLEAN /\ silent \in BOOLEAN /\ (silent => up) /\ ops \in 0..MaxOps /\ fails \in 0..MaxFails
@@ -134,11 +139,23 @@ ApplyNext(i) ==
   /\ caller' = [caller EXCEPT ![i] = "wantLock"]
   /\ UNCHANGED <<subscribed, subCh, unsubCh, lock, ops, deps, run, rcv, snap, batchS, batchU, up, silent, srv, fails, amb>>
 
+\* sync.RWMutex: resubscribe is inside its read section (between ResubLock and ResubSnap)
+ReaderInside == run = "resubSnap"
+\* a writer that has called Lock() while a reader is inside: it waits, and new readers wait behind it
+WriterWaiting == \E j \in Ap : caller[j] = "waitLock"
+
+(* c.Lock() while resubscribe holds the read lock: the writer announces itself and  *)
+(* waits for the reader to leave; from now on RLock() blocks (sync.RWMutex).        *)
+CallLockWait(i) ==
+  /\ caller[i] = "wantLock" /\ lock = "free" /\ ReaderInside
+  /\ caller' = [caller EXCEPT ![i] = "waitLock"]
+  /\ UNCHANGED <<subscribed, subCh, unsubCh, lock, cop, aq, ops, deps, run, rcv, snap, batchS, batchU, up, silent, srv, fails, amb>>
+
 (* c.Lock(); membership test; update of the set (discovery.go:284-290 / 295-301). *)
 (* Early return releases the lock at once.  Repaired code: the lock is released   *)
 (* here, before the enqueue.                                                      *)
 CallLock(i) ==
-  /\ caller[i] = "wantLock" /\ lock = "free"
+  /\ caller[i] \in {"wantLock", "waitLock"} /\ lock = "free" /\ ~ReaderInside
   /\ LET s == cop[i][2]
          noop == IF cop[i][1] = "sub" THEN s \in subscribed ELSE s \notin subscribed
      IN IF noop
@@ -186,37 +203,55 @@ Backoff ==
   /\ run = "backoff" /\ run' = "newStream"
   /\ UNCHANGED <<subscribed, subCh, unsubCh, lock, caller, cop, aq, ops, deps, rcv, snap, batchS, batchU, up, silent, srv, fails, amb>>
 
-(* resubscribe: RLock; snapshot of the set; flush of both channels; RUnlock       *)
-(* (discovery.go:353-362).  With an empty snapshot nothing is sent (364-367) and  *)
-(* run() goes on to start loopRecv and loopSend (340-349).                        *)
-(* A caller that is blocked in its channel send when the flush starts (possible   *)
-(* only when it does not hold the lock, i.e. in the repaired code) completes the  *)
-(* send as soon as the flush frees a slot, and the flush - which loops until the  *)
-(* channel is empty - removes that entry as well.  (Found by trace validation on  *)
-(* the patched client.)  A caller that has not yet reached the send keeps its     *)
-(* entry for after the flush.                                                     *)
+(* resubscribe (discovery.go:353-370): RLock; snapshot of the set and flush of     *)
+(* both channels; RUnlock; then Send of the snapshot.  Two steps: ResubLock takes  *)
+(* the read lock and flushes, ResubSnap takes the snapshot and releases the lock   *)
+(* (the order of snapshot and flush inside the lock makes no difference: writers   *)
+(* are excluded).  With an empty snapshot nothing is sent (364-367) and run() goes *)
+(* on to start loopRecv and loopSend (340-349).                                    *)
+(* A caller that is blocked in its channel send when the flush starts (possible    *)
+(* only when it does not hold the lock, i.e. in the repaired code) completes the   *)
+(* send as soon as the flush frees a slot, and the flush - which loops until the   *)
+(* channel is empty - removes that entry as well.  (Found by trace validation on   *)
+(* the patched client.)  A caller that has not yet reached the send keeps its      *)
+(* entry for after the flush.  The released caller may go on to its next call and  *)
+(* reach Lock() while resubscribe is still inside: CallLockWait.                   *)
 ResubLock ==
-  /\ run = "resubLock" /\ lock = "free"
-  /\ snap' = subscribed /\ subCh' = <<>> /\ unsubCh' = <<>>
-  /\ \E B \in SUBSET {i \in Ap : BlockedOnFull(i) /\ lock = "free"} :
+  /\ run = "resubLock" /\ lock = "free" /\ ~WriterWaiting
+  /\ subCh' = <<>> /\ unsubCh' = <<>>
+  /\ \E B \in SUBSET {i \in Ap : BlockedOnFull(i)} :
        caller' = [i \in Ap |-> IF i \in B THEN "idle" ELSE caller[i]]
+  /\ run' = "resubSnap"
+  /\ UNCHANGED <<subscribed, lock, cop, aq, ops, deps, rcv, snap, batchS, batchU, up, silent, srv, fails, amb>>
+
+(* RecursiveRLock: the snapshot calls RLock() again, which waits behind a waiting  *)
+(* writer, which waits for this reader.                                            *)
+ResubSnap ==
+  /\ run = "resubSnap"
+  /\ RecursiveRLock => ~WriterWaiting
+  /\ snap' = subscribed
   /\ IF subscribed = {}
        THEN run' = "sendSelect" /\ rcv' = "recv"
        ELSE run' = "resubSend" /\ UNCHANGED rcv
-  /\ UNCHANGED <<subscribed, lock, cop, aq, ops, deps, batchS, batchU, up, silent, srv, fails, amb>>
+  /\ UNCHANGED <<subscribed, subCh, unsubCh, lock, caller, cop, aq, ops, deps, batchS, batchU, up, silent, srv, fails, amb>>
 
 (* stream.Send(snapshot, nil) (discovery.go:369); an error ends run() before the  *)
 (* loops are started (335-338).  On a silently dead stream the Send succeeds into *)
-(* the socket buffer.                                                             *)
+(* the socket buffer.  A request over the bound is rejected on the client side    *)
+(* and finishes the stream.                                                       *)
 ResubSend ==
   /\ run = "resubSend"
-  /\ \/ /\ up /\ ~silent /\ srv' = srv \cup snap /\ amb' = amb \ snap
-        /\ run' = "sendSelect" /\ rcv' = "recv"
-     \/ /\ up /\ silent /\ run' = "sendSelect" /\ rcv' = "recv" /\ UNCHANGED <<srv, amb>>
-     \/ /\ ~up /\ run' = "backoff" /\ UNCHANGED <<srv, amb, rcv>>
-     \/ /\ ~up /\ LossySend /\ run' = "sendSelect" /\ rcv' = "recv" /\ UNCHANGED <<srv, amb>>
+  /\ \/ /\ up /\ ~silent /\ Cardinality(snap) <= MaxPerRequest
+        /\ srv' = srv \cup snap /\ amb' = amb \ snap
+        /\ run' = "sendSelect" /\ rcv' = "recv" /\ UNCHANGED <<up, silent>>
+     \/ /\ up /\ silent /\ Cardinality(snap) <= MaxPerRequest
+        /\ run' = "sendSelect" /\ rcv' = "recv" /\ UNCHANGED <<srv, amb, up, silent>>
+     \/ /\ up /\ Cardinality(snap) > MaxPerRequest
+        /\ up' = FALSE /\ silent' = FALSE /\ run' = "backoff" /\ UNCHANGED <<srv, amb, rcv>>
+     \/ /\ ~up /\ run' = "backoff" /\ UNCHANGED <<srv, amb, rcv, up, silent>>
+     \/ /\ ~up /\ LossySend /\ run' = "sendSelect" /\ rcv' = "recv" /\ UNCHANGED <<srv, amb, up, silent>>
   /\ snap' = {}
-  /\ UNCHANGED <<subscribed, subCh, unsubCh, lock, caller, cop, aq, ops, deps, batchS, batchU, up, silent, fails>>
+  /\ UNCHANGED <<subscribed, subCh, unsubCh, lock, caller, cop, aq, ops, deps, batchS, batchU, fails>>
 
 (* loopSend: the first select (discovery.go:404-411) and every iteration of the   *)
 (* batch loop (414-425) take one entry of one channel ...                         *)
@@ -248,7 +283,7 @@ SenderDefault ==
 SenderResolve ==
   /\ run = "sendResolve"
   /\ LET both == batchS \cap batchU IN
-       /\ (both # {} => lock = "free")
+       /\ (both # {} => lock = "free" /\ ~WriterWaiting)
        /\ batchS' = batchS \ (both \ subscribed)
        /\ batchU' = batchU \ (both \cap subscribed)
   /\ run' = "sendSend"
@@ -259,14 +294,18 @@ SenderResolve ==
 (* the Send succeeds into the socket buffer.                                      *)
 SenderSend ==
   /\ run = "sendSend"
-  /\ \/ /\ up /\ ~silent /\ srv' = (srv \cup batchS) \ batchU
+  /\ \/ /\ up /\ ~silent /\ Cardinality(batchS \cup batchU) <= MaxPerRequest
+        /\ srv' = (srv \cup batchS) \ batchU
         /\ amb' = (amb \ (batchS \cup batchU)) \cup (batchS \cap batchU)
-        /\ run' = "sendSelect"
-     \/ /\ up /\ silent /\ run' = "sendSelect" /\ UNCHANGED <<srv, amb>>
-     \/ /\ ~up /\ run' = "waitRecv" /\ UNCHANGED <<srv, amb>>
-     \/ /\ ~up /\ LossySend /\ run' = "sendSelect" /\ UNCHANGED <<srv, amb>>
+        /\ run' = "sendSelect" /\ UNCHANGED <<up, silent>>
+     \/ /\ up /\ silent /\ Cardinality(batchS \cup batchU) <= MaxPerRequest
+        /\ run' = "sendSelect" /\ UNCHANGED <<srv, amb, up, silent>>
+     \/ /\ up /\ Cardinality(batchS \cup batchU) > MaxPerRequest
+        /\ up' = FALSE /\ silent' = FALSE /\ run' = "waitRecv" /\ UNCHANGED <<srv, amb>>
+     \/ /\ ~up /\ run' = "waitRecv" /\ UNCHANGED <<srv, amb, up, silent>>
+     \/ /\ ~up /\ LossySend /\ run' = "sendSelect" /\ UNCHANGED <<srv, amb, up, silent>>
   /\ batchS' = {} /\ batchU' = {}
-  /\ UNCHANGED <<subscribed, subCh, unsubCh, lock, caller, cop, aq, ops, deps, rcv, snap, up, silent, fails>>
+  /\ UNCHANGED <<subscribed, subCh, unsubCh, lock, caller, cop, aq, ops, deps, rcv, snap, fails>>
 
 (* <-recvDone after loopSend returned because of a send error                     *)
 WaitRecv ==
@@ -305,9 +344,9 @@ KeepaliveDetect ==
   /\ UNCHANGED <<subscribed, subCh, unsubCh, lock, caller, cop, aq, ops, deps, run, rcv, snap, batchS, batchU, srv, fails, amb>>
 
 -----------------------------------------------------------------------------
-ApplierNext(i) == ApplyNext(i) \/ CallLock(i) \/ CallEnqueue(i) \/ CallUnlock(i)
+ApplierNext(i) == ApplyNext(i) \/ CallLockWait(i) \/ CallLock(i) \/ CallEnqueue(i) \/ CallUnlock(i)
 CallerNext == \E i \in Ap : ApplierNext(i)
-RunNext == NewStreamOK \/ Backoff \/ ResubLock \/ ResubSend \/ SenderTakeSub \/ SenderTakeUnsub
+RunNext == NewStreamOK \/ Backoff \/ ResubLock \/ ResubSnap \/ ResubSend \/ SenderTakeSub \/ SenderTakeUnsub
              \/ SenderStop \/ SenderDefault \/ SenderResolve \/ SenderSend \/ WaitRecv
 RecvNext == RecvFail
 TransportNext == KeepaliveDetect
@@ -361,6 +400,8 @@ W_EnqueueBlockedNoLock == (\E i \in Ap : caller[i] = "enqueue") /\ lock = "free"
 W_IdleOnSilentStream == silent /\ run = "sendSelect" /\ rcv = "recv" /\ AllIdle /\ deps # {}
 W_MessageParkedOnFullQueue == \E i \in Ap : BlockedOnFull(i) /\ aq[i] # <<>>
 NotW8 == ~W_MessageParkedOnFullQueue
+W_WriterWaitsForResubscribe == WriterWaiting
+NotW9 == ~W_WriterWaitsForResubscribe
 W_SendIntoSilentStream == silent /\ run = "sendSend"
 NotW6 == ~W_IdleOnSilentStream
 NotW7 == ~W_SendIntoSilentStream
